@@ -10,23 +10,23 @@ Definition cells_obs (cs : list cell) : list Z := map cell_q cs ++ map cell_valu
 (* ---- Reg: row [d; e; r] -> [q; value] *)
 Definition reg_trace (w : Z) (he hr : bool) (rv : Z) :=
   mtrace (fun c i => match i with [d; e; r] => reg_m w he hr rv c (d, e, r) | _ => c end) nopre
-        (fun c _ => [cell_q c; cell_value c]) (cell0 rv).
+        (fun c _ => [cell_q c; cell_value c]) (cell_init w rv).
 (* ---- TReg: row [t; e; r] -> [q; value] *)
 Definition treg_trace (wq : Z) (he hr : bool) :=
   mtrace (fun c i => match i with [t; e; r] => treg_m wq he hr c (t, e, r) | _ => c end) nopre
-        (fun c _ => [cell_q c; cell_value c]) (cell0 0).
+        (fun c _ => [cell_q c; cell_value c]) cell_zero.
 (* ---- Counter: row [reset; inc] -> [q; value] *)
 Definition counter_trace (w : Z) (hi hr : bool) :=
   mtrace (fun c i => match i with [r; n] => counter_m w hi hr c (r, n) | _ => c end) nopre
-        (fun c _ => [cell_q c; cell_value c]) (cell0 0).
+        (fun c _ => [cell_q c; cell_value c]) cell_zero.
 (* ---- ModuloCounter: row [reset; inc] -> [q; carry; value] *)
 Definition modcounter_trace (w wc m : Z) :=
   mtrace (fun c i => match i with [r; n] => modcounter_m w wc m c (r, n) | _ => c end) nopre
-        (fun c _ => [cell_q c; modcounter_carry w wc m c; cell_value c]) (cell0 0).
+        (fun c _ => [cell_q c; modcounter_carry w wc m c; cell_value c]) cell_zero.
 (* ---- StepUpCounter: row [reset; inc; step] -> [q; value] *)
 Definition stepup_trace (w : Z) (hr : bool) :=
   mtrace (fun c i => match i with [r; n; st] => stepup_m w hr c (r, n, st) | _ => c end) nopre
-        (fun c _ => [cell_q c; cell_value c]) (cell0 0).
+        (fun c _ => [cell_q c; cell_value c]) cell_zero.
 (* ---- DelayLine: row [a; en; reset] -> pre [r], post [r] ++ q's ++ values *)
 Definition delay_trace (w wr : Z) (he hr : bool) (delay : nat) :=
   mtrace (fun cs i => match i with [a; e; r] => delay_m w he hr cs (a, e, r) | _ => cs end)
@@ -38,7 +38,7 @@ Definition pipe_trace (ws : list Z) :=
 (* ---- EdgeDetector: row [a] -> pre [r], post [r; z1; value] *)
 Definition edge_trace (dir : direction) (wr : Z) :=
   mtrace (fun c i => edge_step c (hd 0 i)) (fun c i => [edge_out dir wr c (hd 0 i)])
-        (fun c i => [edge_out dir wr c (hd 0 i); cell_q c; cell_value c]) (cell0 0).
+        (fun c i => [edge_out dir wr c (hd 0 i); cell_q c; cell_value c]) cell_zero.
 (* ---- ClockDivider: row [reset] (or [] without a reset port) -> [clkout; q; t; counter value; toggle value] *)
 Definition clkdiv_trace (n qw wclk : Z) (hr : bool) :=
   mtrace (fun s i => clkdiv_step n qw wclk hr s (hd 0 i)) nopre
@@ -57,6 +57,10 @@ Definition mem_trace (aw wr : Z) :=
   mtrace (fun s i => match i with [ra; wa; we; wd] => mem_m wr s (ra, wa, we, wd) | _ => s end) nopre
         (fun s _ => mem_out s :: mem_data s) (mem_init aw).
 (* ---- AutoReset: row [] -> [reset; state] *)
+(* ---- DualPortSynchronousMemory: row [raa; waa; wa; wda; rab; wab; wb; wdb] -> [readdata_a; readdata_b] ++ data *)
+Definition dp_trace (aw wra wrb : Z) :=
+  mtrace (fun s i => match i with [raa; waa; wa; wda; rab; wab; wb; wdb] => dp_step wra wrb s ((raa, waa, wa, wda), (rab, wab, wb, wdb)) | _ => s end) nopre
+        (fun s _ => dp_out_a s :: dp_out_b s :: dp_data s) (dp_init aw).
 Definition ar_trace (w : Z) :=
   mtrace (fun s (_ : list Z) => ar_step w s) nopre (fun s _ => [ar_out s; AutoReset_s_state (fst s)]) ar_init.
 (* ---- comparison with the implementation's rows: Some (step, (column, impl, ours)) at the first difference *)
